@@ -9,7 +9,7 @@ from ..wire import Sym, enc, lean_representable, request as rq
 
 ID = "C05"
 LEAN_MODULE = "BibVerif.Props.C05"
-RULE = ("grammar-derived documents (resolved and unresolved @string references, chains of @string aliases, concatenations, numeric values, nested braces, "
+RULE = ("grammar-derived documents (resolved and unresolved @string references, chains of @string aliases, digit-only values with leading zeros / non-ASCII digits in and outside the numeric fields, concatenations, numeric values, nested braces, "
         "multi-line values, comments between blocks, duplicate keys in a minority of documents) x BibtexFormat settings "
         "(indent in '', ' ', TAB, 4 spaces; value_column in 0..40 and 'auto'; trailing_comma; block_separator in '', NL, NLNL, ' NL'). "
         "Compared: the model of the whole default pipeline (splitter, Library.add, ResolveStringReferences, RemoveEnclosing, "
@@ -170,7 +170,22 @@ def _alias_doc(rng):
     return rng.choice(["\n", " ", "\n\n"]).join(parts)
 
 
+def _numeric_doc(rng):
+    """digit-only values (leading zeros, non-ASCII decimal digits, superscripts) in and outside the fields the
+    enclosing middleware treats as potentially numeric, bare / braced / quoted"""
+    keys = ["year", "month", "volume", "number", "pages", "edition", "chapter", "issue", "Year", "title", "eid"]
+    vals = ["007", "03", "0", "2020", "\u0662\u0660\u0662\u0662", "\u00b2", "1\u0663", "12a", "1-2", "-5"]
+    fs = []
+    for k in rng.sample(keys, rng.randint(1, 4)):
+        v = rng.choice(vals)
+        fs.append("%s = %s" % (k, rng.choice(["%s", "{%s}", '"%s"']) % v))
+    return "@a{k%d, %s}" % (rng.randint(0, 9), ", ".join(fs))
+
+
 def gen(tier, rng):
+    for _ in range(80 if tier == "quick" else 800):
+        yield {"t": _numeric_doc(rng), "indent": rng.choice(INDENTS), "col": rng.choice(["auto", 0, 9]),
+               "sep": rng.choice(SEPS), "tc": rng.random() < 0.5}
     for _ in range(60 if tier == "quick" else 600):
         yield {"t": _alias_doc(rng), "indent": rng.choice(INDENTS), "col": rng.choice(["auto", 0, 7, 20]),
                "sep": rng.choice(SEPS), "tc": rng.random() < 0.5}
